@@ -545,6 +545,7 @@ def cli(argv=None, mode='output'):
                     export_header=args.verbose,
                     export_varnames=args.varnames,
                     extra_text=extra_text)
+        args.output.flush()
 
     return None
 
@@ -566,11 +567,21 @@ def main():
         print(e, file=sys.stderr)
         sys.exit(-1)
 
-    except (BrokenPipeError, IOError):
+    except BrokenPipeError:
         # avoid errors when stdout is closed before the end of the
         # program (i.e. piping into a command line which does
         # not work.)
         pass
+
+    except IOError as e:
+        # any other input/output failure (full disk, unreadable or
+        # unwritable file) must not look like a success
+        import cnfgen.clitools.msg as msg
+        # the prefix of the output format is still active if the
+        # failure happened while the formula was being written
+        with msg_prefix('' if msg._prefix else 'c '):
+            error_msg("ERROR: " + str(e))
+        sys.exit(-1)
 
     # avoid signaling BrokenPipeError as whatnot
     sys.stderr.close()
